@@ -90,6 +90,27 @@ def handleL3 (req ans : String) : Verdict :=
       { model := if ok then ans else m, specOk := specOk,
         spec := s!"accepted, and the emitted line means `{expLine}` (same instruction, same operand parts, same effective segment)", nontrivial := true }
     | _, _ => bad
+  | ["role", e, eline] =>
+    -- C11: the emitted line, read by the interpreter model, is the same instruction with the same operands in the
+    -- same roles as the source instruction (given in the interpreter's spelling, derived by the generator from the
+    -- plainest rendering of the same syntax tree; no grammar action is consulted)
+    match pctDecode e, pctDecode eline with
+    | some src, some expLine =>
+      let (m, ok) := asmVerdict src ans
+      let c := ((ans.splitOn " | ").find? (·.startsWith "c=")).getD "c=-"
+      let lines := if c == "c=-" then [] else ((c.drop 2).toString.splitOn ";").filterMap pctDecode
+      let normJ : Instr → Instr := fun i => match i with
+        | .jcc j t => .jcc (Emu8086.Spec.canon j) t
+        | i => i.norm
+      match (if ans.startsWith "OK" then parseLine expLine else none) with
+      | none => { model := if ok then ans else m, specOk := true, spec := "-", nontrivial := false }
+      | some w =>
+        let specOk := match lines.head? with
+          | some l => (match parseLine l with | some g => decide (normJ g = normJ w) | none => false)
+          | none => false
+        { model := if ok then ans else m, specOk := specOk,
+          spec := s!"accepted, and the first emitted line means `{expLine}` (same operation, same operands in the same roles)", nontrivial := true }
+    | _, _ => bad
   | ["jsp", e, nm] =>
     match pctDecode e with
     | some src =>
